@@ -10,7 +10,7 @@
    Proofs/UrlC10.v), each of which ./check C10 samples against the real library. *)
 From Coq Require Import List NArith ZArith Bool.
 From Wpull Require Import Model.UrlLib Model.Url Proofs.UrlPeProofs Proofs.UrlEscCaseProofs Proofs.UrlFragProofs Proofs.ConstsAgree Gen.Consts Proofs.UrlPathProofs Proofs.UrlEncProofs
-  Proofs.UrlNormProofs Proofs.UrlC10 Proofs.UrlEquivProofs Proofs.UrlEquiv2Proofs.
+  Proofs.UrlNormProofs Proofs.UrlC10 Proofs.UrlEquivProofs Proofs.UrlEquiv2Proofs Proofs.UrlEquiv3Proofs.
 Import ListNotations.
 Open Scope N_scope.
 
@@ -80,8 +80,11 @@ Print Assumptions C10_utf8_encoder_ok.
    escapes, a dropped fragment and IPv4/IPv6 re-spelling, spelling_equiv s1 s2 -> both parse
    and url_of is equal.  Proved below: scheme case for the whole URL, for ARBITRARY input
    text; an explicit default port at the level of parse_network (the text after the scheme);
-   host case, and dot / empty segment insertion, at the level of the component normalizer.
-   Escape case, fragment and IP re-spelling are checked on the implementation for every
+   host case, and dot / empty segment insertion, at the level of the component normalizer and
+   (C10_equiv_host_case_url_partial, C10_equiv_dot_segments_url_partial) of parse_network;
+   escape case at the level of percent_encode; a dropped fragment at the level of parse_network;
+   IPv4 notation as "function of the value".  IPv6 re-spelling (a library oracle) and the
+   composition of several re-spellings at once are checked on the implementation for every
    generated URL (variants), not proved. *)
 
 (* two spellings that differ only in the letter case of an ASCII scheme: both are rejected
@@ -203,6 +206,87 @@ Example C10_fragment_nonvacuous :
   | _, _ => False
   end.
 Proof. cbv zeta. vm_compute. repeat split; discriminate. Qed.
+
+(* Dot segments, empty segments and "x/.." in the path of a WHOLE network URL (the component law above, lifted through the
+   component split and the parser): after a network scheme, "//A/a/<mid>/b T" and "//A/a/b T" - A the authority (no / ? #),
+   a a path prefix beginning with an ordinary character, <mid> one or more whole segments the flattening drops ("." , the
+   empty segment, an ordinary segment followed by ".."), T empty or the query / fragment tail - are rejected with the same
+   kind or parse to the same normalized URL and the same components. *)
+Theorem C10_equiv_dot_segments_url_partial :
+  forall enc idna_o ipv6_o int_o unq_o (url url' scheme : str) (dport : N) (A : str) (c : N) (a b : str) (mid : list str) (T : str),
+    default_port scheme = Some dport ->
+    memb 47 A = false -> memb 63 A = false -> memb 35 A = false ->
+    c <> 47 -> memb 63 (c :: a) = false -> memb 35 (c :: a) = false -> memb 63 b = false -> memb 35 b = false ->
+    memb 63 (join [47] mid) = false -> memb 35 (join [47] mid) = false ->
+    dropped mid -> mid <> [] -> Forall (fun p => memb 47 p = false) mid -> tail_ok T ->
+    match parse_network enc idna_o ipv6_o int_o unq_o url scheme dport ([47; 47] ++ A ++ 47 :: ((c :: a) ++ 47 :: join [47] mid ++ 47 :: b) ++ T),
+          parse_network enc idna_o ipv6_o int_o unq_o url' scheme dport ([47; 47] ++ A ++ 47 :: ((c :: a) ++ 47 :: b) ++ T) with
+    | Ok i, Ok i' => url_of enc i = url_of enc i' /\ u_scheme i = u_scheme i' /\ u_hostname i = u_hostname i' /\
+                     u_port i = u_port i' /\ u_path i = u_path i' /\ u_query i = u_query i' /\ u_fragment i = u_fragment i' /\
+                     u_username i = u_username i' /\ u_password i = u_password i'
+    | Err k, Err k' => k = k'
+    | _, _ => False
+    end.
+Proof. exact parse_network_insert_segments. Qed.
+Print Assumptions C10_equiv_dot_segments_url_partial.
+
+(* the three kinds of dropped segments *)
+Theorem C10_dropped_segments :
+  dropped [s_dot] /\ dropped [[]] /\ (forall x, seg_ok x = true -> dropped [x; s_dotdot]).
+Proof. exact (conj dropped_dot (conj dropped_empty dropped_updown)). Qed.
+Print Assumptions C10_dropped_segments.
+
+(* non-vacuity: "//u:p@Ex.test:8080/a/./x/../b?q#f" against "//u:p@Ex.test:8080/a/b?q#f" *)
+Example C10_dot_segments_url_nonvacuous :
+  let run x := parse_network ex_enc (fun _ => None) ex_ipv6 (fun _ _ => None) unescape [] [104; 116; 116; 112] 80 x in
+  let A := [117; 58; 112; 64; 69; 120; 46; 116; 101; 115; 116; 58; 56; 48; 56; 48] in
+  let T := [63; 113; 35; 102] in
+  let mid := [s_dot; [120]; s_dotdot] in
+  tail_ok T /\
+  match run ([47; 47] ++ A ++ 47 :: ([97] ++ 47 :: join [47] mid ++ 47 :: [98]) ++ T), run ([47; 47] ++ A ++ 47 :: ([97] ++ 47 :: [98]) ++ T) with
+  | Ok i, Ok i' => url_of ex_enc i = url_of ex_enc i' /\
+                   url_of ex_enc i = Ok [104; 116; 116; 112; 58; 47; 47; 117; 58; 112; 64; 101; 120; 46; 116; 101; 115; 116; 58; 56; 48; 56; 48; 47; 97; 47; 98; 63; 113]
+  | _, _ => False
+  end.
+Proof. cbv zeta. vm_compute. repeat split; auto. Qed.
+
+(* Host letter case in a WHOLE network URL: "//U hn pp R" and "//U hn' pp R" - U empty or "userinfo@", hn and hn' ASCII host
+   names (no colon, no brackets) that differ only in letter case, pp empty or ":digits", R the rest - are rejected with the
+   same kind or parse to the same normalized URL and the same components. *)
+Theorem C10_equiv_host_case_url_partial :
+  forall enc idna_o ipv6_o int_o unq_o (url url' scheme : str) (dport : N) (u : option str) (hn hn' pp R : str),
+    default_port scheme = Some dport ->
+    (forall x, u = Some x -> memb 64 x = false /\ memb 47 x = false /\ memb 63 x = false /\ memb 35 x = false) ->
+    name_text hn -> name_text hn' -> lower_ascii hn = lower_ascii hn' -> port_text pp ->
+    memb 47 hn = false -> memb 63 hn = false -> memb 35 hn = false -> memb 64 hn = false ->
+    memb 47 hn' = false -> memb 63 hn' = false -> memb 35 hn' = false -> memb 64 hn' = false ->
+    rest_ok R ->
+    let U := match u with Some x => x ++ [64] | None => [] end in
+    match parse_network enc idna_o ipv6_o int_o unq_o url scheme dport ([47; 47] ++ (U ++ hn ++ pp) ++ R),
+          parse_network enc idna_o ipv6_o int_o unq_o url' scheme dport ([47; 47] ++ (U ++ hn' ++ pp) ++ R) with
+    | Ok i, Ok i' => url_of enc i = url_of enc i' /\ u_scheme i = u_scheme i' /\ u_hostname i = u_hostname i' /\
+                     u_port i = u_port i' /\ u_path i = u_path i' /\ u_query i = u_query i' /\ u_fragment i = u_fragment i' /\
+                     u_username i = u_username i' /\ u_password i = u_password i'
+    | Err k, Err k' => k = k'
+    | _, _ => False
+    end.
+Proof. exact parse_network_host_case. Qed.
+Print Assumptions C10_equiv_host_case_url_partial.
+
+(* non-vacuity: "//u:p@EXAMPLE.Test:8080/a?q" against "//u:p@example.test:8080/a?q" *)
+Example C10_host_case_url_nonvacuous :
+  let run x := parse_network ex_enc (fun _ => None) ex_ipv6 (fun _ _ => None) unescape [] [104; 116; 116; 112] 80 x in
+  let U := [117; 58; 112; 64] in
+  let hn := [69; 88; 65; 77; 80; 76; 69; 46; 84; 101; 115; 116] in
+  let hn' := [101; 120; 97; 109; 112; 108; 101; 46; 116; 101; 115; 116] in
+  let pp := [58; 56; 48; 56; 48] in
+  let R := [47; 97; 63; 113] in
+  name_text hn /\ name_text hn' /\ lower_ascii hn = lower_ascii hn' /\
+  match run ([47; 47] ++ (U ++ hn ++ pp) ++ R), run ([47; 47] ++ (U ++ hn' ++ pp) ++ R) with
+  | Ok i, Ok i' => url_of ex_enc i = url_of ex_enc i' /\ u_hostname i = hn' /\ u_port i = 8080
+  | _, _ => False
+  end.
+Proof. cbv zeta. unfold name_text. vm_compute. repeat split; auto; discriminate. Qed.
 
 (* IPv4 notation: the normalized form of an IPv4 spelling is a function of the 32-bit value it denotes (one integer in
    decimal, 0-octal or 0x-hex, or four such parts) - spellings of the same address normalize alike *)
